@@ -111,13 +111,17 @@ package openflow13
 
 //@ func (*Match).MarshalBinary(m) (data, err)
 //@   ensures[C02] be16(data, 0) == 1 && be16(data, 2) == uint16(4 + sum(m.Fields)) && len(data) % 8 == 0
+//@   ensures[C03] elemsat(data, 4, m.Fields, len(m.Fields), "h32:oxmhdr")
 //@   flag notrunc
 //@   loop 1:
 //@     invariant n == 4 + sum(m.Fields, #k) && be16(data, 0) == m.Type && be16(data, 2) == m.Length
+//@     invariant[C03] elemsat(data, 4, m.Fields, #k, "h32:oxmhdr")
 
 //@ spec size(m *MatchField) = 4 + ite(m.ExperimenterID != 0, 4, 0) + size(m.Value) + ite(m.HasMask, size(m.Mask), 0)
 //@ spec wf(m *MatchField) = wf(m.Value) && (m.HasMask ==> wf(m.Mask)) && m.Field < 128 && int(m.Length) == size(m) - 4
 
+// the 32-bit OXM header word: class, field<<1|hasmask, payload length (section 7.2.3.2)
+//@ spec oxmhdr(m *MatchField) = uint32(m.Class)<<16 | uint32(m.Field<<1 | ite(m.HasMask, uint8(1), uint8(0)))<<8 | uint32(m.Length)
 //@ func (*MatchField).MarshalBinary(m) (data, err)
 //@   ensures[C02 C03] be16(data, 0) == m.Class && u8(data, 2) == m.Field<<1 | ite(m.HasMask, uint8(1), uint8(0)) && int(u8(data, 3)) == len(data) - 4
 //@   flag notrunc
